@@ -91,6 +91,22 @@ def chk_payload(v, depth, fp_hex, index, chain_hex, k_hex, sec_hex):
             viols.append(V(P + ":__eq__:forms:unequal", "nodes parsed from different input forms are unequal (%s)" % s))
     if first is None:
         return viols
+    # a duplicate (copy.copy / copy.deepcopy / pickle round trip) of a parsed node - and of a node DERIVED from it - serialises
+    # to the same string as the original
+    from .. import hdscen
+    for how, c in hdscen.clones(first):
+        f = c.extended_private_key if kind == "prv" else c.extended_public_key
+        st, again = attempt(f, getattr(c, "parsed_version", None) or v)
+        if st != "ok" or again != s:
+            viols.append(V("%s:reserialize:%s:%s:not-identical" % (P, kind, how), "%s of the node parsed from %s serialises differently" % (how, s), again, s))
+    if depth < 255 and (kind == "prv" or index >= 0):
+        st, ch = attempt(first.ckd, 1)
+        if st == "ok":
+            st, orig = attempt(ch.extended_public_key)
+            for how, c in hdscen.clones(ch):
+                st2, again = attempt(c.extended_public_key)
+                if st == "ok" and (st2 != "ok" or again != orig):
+                    viols.append(V("%s:reserialize:derived-node:%s:not-identical" % (P, how), "%s of child 1 of the node parsed from %s serialises differently from the child itself" % (how, s), again, orig))
     # stream semantics: parsing from a stream starts at its CURRENT position and consumes exactly 78 bytes
     buf = BytesIO(b"\xaa\xbb\xcc" + raw + raw + b"\xdd")
     buf.read(3)
